@@ -583,12 +583,26 @@ func (i *Interpreter) ProcessPass() error {
 func (i *Interpreter) ProcessFetch() error {
 	i.SetScope(context.FetchScope)
 
-	if i.ctx.BackendRequest == nil {
+	if i.ctx.BackendRequest == nil || i.ctx.Backend == nil {
 		return exception.System("No backend determined on FETCH")
 	}
 
-	// Send request to backend
 	var err error
+	if i.ctx.Backend.Value == nil {
+		// req.backend was pointed at a director in vcl_miss or vcl_pass, after bereq had been
+		// created: let the director choose now, and keep the bereq headers set so far
+		if i.ctx.Backend.Director == nil {
+			return exception.System("No backend determined on FETCH")
+		}
+		header := i.ctx.BackendRequest.Header
+		i.ctx.BackendRequest, err = i.createDirectorRequest(i.ctx, i.ctx.Backend.Director)
+		if err != nil {
+			return errors.WithStack(err)
+		}
+		i.ctx.BackendRequest.Header = header
+	}
+
+	// Send request to backend
 	i.ctx.BackendResponse, err = i.sendBackendRequest(i.ctx.Backend)
 	if err != nil {
 		return errors.WithStack(err)
